@@ -252,6 +252,7 @@ func runC27(c *core.Ctx) {
 		name := "canonical mutation following " + ir.CalleeObj(m).Name() + " (same transaction)"
 		eng.MustPassCall(c, "C27.fresh-head", fn, "GetCurrentHeader", eng.CallPred(gch), ir.CallSinks(muts, name), name, &eng.Opt{Start: next})
 	}
+	checkEthHeadPointer(c)
 	checkBtcCommitHeader(c)
 }
 
@@ -400,6 +401,7 @@ func runC28(c *core.Ctx) {
 	if e == nil {
 		return
 	}
+	checkBaseFeeShape(c)
 	fn := e.fn
 	vg := eng.Obj(c, pkEthHS, "VerifyGaslimit")
 	v1559 := eng.Obj(c, pkEthHS, "VerifyEip1559Header")
